@@ -18,3 +18,27 @@ package ast
 //@   requires !isnil(c)
 //@   ensures has(c.aliases, name) ==> result == c.aliases[name]
 //@   ensures !has(c.aliases, name) ==> isnil(result)
+//
+// ---- Thompson construction of repetitions: the non-greedy mark (C08) ----------------------
+//
+//@ pure func modeOK(c *Context) bool = !isnil(c) && len(c.CurrentLexerMode.elems) > 0 && !isnil(c.CurrentLexerMode.elems[len(c.CurrentLexerMode.elems) - 1]) && !isnil(c.CurrentLexerMode.elems[len(c.CurrentLexerMode.elems) - 1].StateFactory)
+//
+//@ func Context.Mode
+//@   requires !isnil(c) && len(c.CurrentLexerMode.elems) > 0
+//@   ensures result == c.CurrentLexerMode.elems[len(c.CurrentLexerMode.elems) - 1]
+//
+// Every lexer term builds an NFA fragment with a begin and an end state (assumed for the
+// terms nested inside a repetition; it may create states and transitions).
+//@ func LexerTerm.NFACons
+//@   trusted
+//@   requires modeOK(ctx)
+//@   ensures !isnil(result) && !isnil(result.B) && !isnil(result.E) && modeOK(ctx)
+//@   modifies fields(nfa.State), fields(nfa.StateFactory), fields(mode.NFAComposite)
+//
+// The exit state of a repetition is marked non-greedy exactly for *? and +?.
+//@ func LexerTermCard.NFACons
+//@   requires !isnil(t) && !isnil(t.Term) && modeOK(ctx) && 0 <= t.Card && t.Card <= OneOrMoreNG
+//@   ensures !isnil(result) && !isnil(result.B) && !isnil(result.E)
+//@   ensures (t.Card == ZeroOrMore || t.Card == ZeroOrMoreNG || t.Card == OneOrMore || t.Card == OneOrMoreNG) ==> (fresh(result.E) && (result.E.NonGreedy <==> (t.Card == ZeroOrMoreNG || t.Card == OneOrMoreNG)))
+//@   ensures t.Card == ZeroOrOne ==> fresh(result.E) && !result.E.NonGreedy
+//@   skip frame
